@@ -212,6 +212,9 @@ func c09HostileBody(k c09Case) (body []byte, encoding string, declaredBig bool) 
 		b[0] = byte(fl)
 		copy(b[1:5], []byte{0x04, 0x00, 0x00, 0x00})
 		return b, "", true
+	case "rle-small": // a dozen bytes on the wire that a custom algorithm without an expansion bound inflates to N+1
+		m, _ := proto.Marshal(&BV{Value: bytes.Repeat([]byte{'x'}, k.N)})
+		return RLEEncode(m), "rle", false
 	case "shared-option": // wire <= N < decompressed, algorithm registered through an option value shared with other constructors
 		return gzipValidMessage(4 * k.N), "gz2", false
 	case "content-length-lie": // unary Connect: a small valid body announced as 128 MiB
@@ -249,7 +252,7 @@ func c09HostileCheck(c *ev.Collector, k c09Case) {
 	default:
 		body = refwire.Envelope(1, payload)
 	}
-	if len(body) > k.N && (k.Hostile == "gzip-small" || k.Hostile == "shared-option") {
+	if len(body) > k.N && (k.Hostile == "gzip-small" || k.Hostile == "shared-option" || k.Hostile == "rle-small") {
 		c.Outcome("n/a") // wire size already above the limit: covered by the size cases
 		return
 	}
@@ -266,6 +269,11 @@ func c09HostileCheck(c *ev.Collector, k c09Case) {
 		newC := func() connect.Compressor { return gzip.NewWriter(io.Discard) }
 		shared = []connect.HandlerOption{connect.WithCompression("gz2", newD, newC)}
 		sharedClient = []connect.ClientOption{connect.WithAcceptCompression("gz2", newD, newC)}
+	}
+	if k.Hostile == "rle-small" {
+		newD, newC := RLEAlg()
+		shared = []connect.HandlerOption{connect.WithCompression("rle", newD, newC)}
+		sharedClient = []connect.ClientOption{connect.WithAcceptCompression("rle", newD, newC)}
 	}
 	delivered := 0
 	var before, after runtime.MemStats
@@ -416,7 +424,7 @@ func c09Cases(thorough bool) (normal, hostile []c09Case) {
 				}
 				normal = append(normal, c09Case{Proto: p, Kind: streamKind, Client: client, N: n, Sizes: []int{okSize, 0, okSize}})
 				normal = append(normal, c09Case{Proto: p, Kind: streamKind, Client: client, N: n, Sizes: []int{}})
-				for _, hk := range []string{"gzip-small", "gzip-bomb", "lie-huge", "lie-64m", "content-length-lie", "shared-option", "lie-64m-flag02", "lie-64m-flag80", "lie-64m-flag04", "lie-64m-flag03"} {
+				for _, hk := range []string{"rle-small", "gzip-small", "gzip-bomb", "lie-huge", "lie-64m", "content-length-lie", "shared-option", "lie-64m-flag02", "lie-64m-flag80", "lie-64m-flag04", "lie-64m-flag03"} {
 					for _, kind := range []Kind{KUnary, streamKind} {
 						hostile = append(hostile, c09Case{Proto: p, Kind: kind, Client: client, N: n, Hostile: hk})
 					}
